@@ -17,4 +17,7 @@ pub fn run(ctx: &mut Ctx) {
     // accepted packets that are already larger than 65535 bytes: nothing may grow, everything may shrink
     let n = ctx.scaled(if ctx.tier == "thorough" { 4_000 } else { 160 });
     drive(ctx, Prop::C10, "hist-above-65535", n, Mix { error_sixteenths: 2, max_steps: 4, big_start: false, near_limit: 70000, want: Prop::C10 });
+    // ... and packets well under 64 KiB on the wire that decompress to more than 65535 bytes
+    let n = ctx.scaled(if ctx.tier == "thorough" { 2_000 } else { 96 });
+    drive(ctx, Prop::C10, "hist-decompresses-above-65535", n, Mix { error_sixteenths: 2, max_steps: 4, big_start: false, near_limit: 70001, want: Prop::C10 });
 }
